@@ -249,7 +249,9 @@ def generic_shrink(case):
 
 
 def shrink(mod, case, obs, code, workdir, budget_rounds=25):
-    fn = getattr(mod, "shrink", None) or generic_shrink
+    fn = getattr(mod, "shrink", None)
+    if fn is None:
+        return case, obs, code
     valid = getattr(mod, "valid", lambda c: True)
     cur, cur_obs, cur_code = case, obs, code
     for rnd in range(budget_rounds):
